@@ -351,6 +351,40 @@ def run(tier, seed, escalate=False):
             if not np.allclose(rr.coords["Power"], levels, atol=1e-9):
                 key = "C16:power-axis-roundtrip:%s" % dt.__name__
                 fails.append({"key": key, "clause": key, "ops": [{"dtype": dt.__name__}]})
+        # the power axis of a data object is found BY NAME (power / powers, any case), wherever it sits and whatever the
+        # other dimensions are called (names that are fragments of "powers" included); every other axis and the values stay
+        for pname in ("Power", "power", "powers", "POWERS"):
+            for others in (["s", "t2"], ["p", "er"], ["we", "o"], ["pow", "x"], ["r", "w"]):
+                for pos in range(3):
+                    dims = list(others); dims.insert(pos, pname)
+                    shape = [2, 3]; shape.insert(pos, len(levels))
+                    coords = [np.array([1.0, 20.0]), np.array([-10.0, 0.0, 30.0])]; coords.insert(pos, np.array(levels, dtype=float))
+                    vals = np.arange(float(np.prod(shape))).reshape(shape)
+                    d = dnp.DNPData(vals.copy(), list(dims), [c.copy() for c in coords])
+                    n_eval += 1
+                    sig = "%s:%s:pos%d" % (pname.lower(), "+".join(others), pos)
+                    try:
+                        r = convert_power(d, "dBm2W")
+                        ok = (list(r.dims) == dims and np.allclose(r.coords[pname], 10.0 ** (np.array(levels) / 10.0) / 1000.0, rtol=1e-12)
+                              and all(np.array_equal(r.coords[o], d.coords[o]) for o in others) and np.array_equal(r.values, vals)
+                              and r.dnplab_attrs.get("power_unit") == "W")
+                        rr = convert_power(r)       # the mode now comes from power_unit
+                        ok = ok and np.allclose(rr.coords[pname], levels, atol=1e-9) and rr.dnplab_attrs.get("power_unit") == "dBm" \
+                            and all(np.array_equal(rr.coords[o], d.coords[o]) for o in others)
+                    except BaseException as e:  # noqa: BLE001
+                        ok = False
+                    if not ok:
+                        key = "C16:power-axis-by-name:" + sig
+                        fails.append({"key": key, "clause": key, "ops": [{"dims": dims}]})
+        for dims in (["s", "t2"], ["p"], ["er", "x"], ["pow", "w"]):
+            d = dnp.DNPData(np.zeros([3] * len(dims)), list(dims), [np.arange(3.0) for _ in dims])
+            n_eval += 1
+            try:
+                convert_power(d, "dBm2W")
+                key = "C16:no-power-dimension-not-refused:" + "+".join(dims)
+                fails.append({"key": key, "clause": key, "ops": [{"dims": dims}]})
+            except BaseException:  # noqa: BLE001
+                pass
     finally:
         shutil.rmtree(work, ignore_errors=True)
     seen, uniq = set(), []
